@@ -82,6 +82,14 @@ def rule_b(ck, F):
     else:
         ck.violation('B', 'B : idct_1d : accumulation form', where_of(b, bb), 'idct_1d computes %s := %s with increment %s; expected the sum of input[u]*BASIS_TABLE[u][i] over the inner index u in 0..8' % (
             show(t), show(v), show(incr) if incr else None))
+    # every return goes through the whole output loop: no exit leaves `output` (a scratch row reused across blocks) with stale contents
+    if ok:
+        hi_ = _loop_head(T, li.L)
+        early = [r for r in g.exits() if g.blocks[r]['term']['t'] == 'return' and not g.dominates(hi_, r)]
+        if early:
+            ck.violation('B', 'B : idct_1d : early return', where_of(b, early[0]), 'idct_1d can return without having written every output sample (a return not dominated by the output loop): '
+                         'the caller reuses the output row across blocks, so stale values would be transformed')
+        else: ck.ok('B', 'idct_1d: every return is dominated by the loop over all 8 output samples', where_of(b, hi_))
     if start_ok: ck.ok('B', 'idct_1d: the sum starts from 0.0 for every output sample', where_of(b))
     else: ck.violation('B', 'B : idct_1d : zero start', where_of(b), 'the sum does not start from zero for every output sample (stores: %s)' % [show(t2) + ' := ' + show(v2) for _, _, t2, v2 in zero])
 
